@@ -72,6 +72,37 @@ KEYWORDS = {"match", "create", "modify", "delete", "allow", "disallow", "require
             "from", "materials", "products"}
 
 
+GENERIC = {"create", "modify", "delete", "allow", "disallow", "require"}
+DEST_TYPES = {"materials", "products"}
+
+
+def grammar(rule):
+    """The documented rule grammar, stated directly (the oracle; independent of the Lean model):
+    <generic keyword> <pattern> | MATCH <pattern> [IN <prefix>] WITH (MATERIALS|PRODUCTS) [IN <prefix>] FROM <step>,
+    keywords in any letter case at fixed positions, nothing before, between or after.  Returns the meaning or None."""
+    if not all(isinstance(t, str) for t in rule):
+        return None
+    low = [t.lower() for t in rule]
+    n = len(rule)
+    if n == 2 and low[0] in GENERIC:
+        return {"rule_type": low[0], "pattern": rule[1]}
+    if n not in (6, 8, 10) or low[0] != "match":
+        return None
+    k = 2
+    src = dst = ""
+    if low[k] == "in":
+        src = rule[k + 1]; k += 2
+    if k + 1 >= n or low[k] != "with" or low[k + 1] not in DEST_TYPES:
+        return None
+    dtype = low[k + 1]; k += 2
+    if k < n and low[k] == "in" and n - k == 4:
+        dst = rule[k + 1]; k += 2
+    if n - k != 2 or low[k] != "from":
+        return None
+    return {"rule_type": "match", "pattern": rule[1], "source_prefix": src, "dest_prefix": dst, "dest_type": dtype,
+            "dest_name": rule[k + 1]}
+
+
 def check_rules(rules, res, rng, label):
     """rules: list of token lists (None = non-str). Compare impl and model."""
     d = core.driver()
@@ -92,6 +123,12 @@ def check_rules(rules, res, rng, label):
         if not ok and i["err"] != "FormatError":
             res.fail("oracle", {"op": "unpack_rule", "rule": rule},
                      {"why": "rule neither parsed nor rejected with FormatError", "impl": i})
+        g = grammar(to_py(rule))
+        if (g is None and ok) or (g is not None and i != {"ok": g}):
+            res.fail("oracle", {"op": "unpack_rule", "rule": rule},
+                     {"why": "a rule outside the documented grammar was parsed" if g is None else
+                      "a well-formed rule was rejected or parsed to another meaning than what is written",
+                      "impl": i, "grammar": g})
         if ok:
             res.count("type_" + i["ok"]["rule_type"])
             packs.append((rule, i["ok"]))
